@@ -37,7 +37,8 @@ func tryReplay(cr *checkRun, r *OblResult, sr *SiteResult, rep map[string]interf
 }
 
 // batteryFor: which scenario battery instantiates the inputs a property's clauses quantify over.
-//   "<template>:<ENV>=<value>[,<value>...]"
+//
+//	"<template>:<ENV>=<value>[,<value>...]"
 func batteryFor(prop string) string {
 	return map[string]string{
 		"C03": "fs_battery_test.go:VERIF_BATTERY=roundtrip",
